@@ -2132,6 +2132,13 @@ func (r *Raft) isSingleServerCluster() bool {
 // pendingConfigurationChange returns true if the current configuration
 // has not been committed.
 func (r *Raft) pendingConfigurationChange() bool {
+	// A configuration entry that is in the log but has not been applied yet is a pending
+	// change, whether or not it is already the current configuration (a removal is not).
+	for index := r.lastApplied + 1; index <= r.log.LastIndex(); index++ {
+		if entry, err := r.log.GetEntry(index); err == nil && entry.EntryType == ConfigurationEntry {
+			return true
+		}
+	}
 	return r.committedConfiguration == nil ||
 		r.committedConfiguration.Index != r.configuration.Index
 }
